@@ -168,11 +168,71 @@ pub proof fn reuse_aligned<T>(old: Seq<T>, new: Seq<T>, tc: &TokenChange, a: int
     }
 }
 
+// ---------- producer side: what `lexer::update` does after re-lexing (lifted, R6)
+pub open spec fn starts_increase(ts: Seq<Token>) -> bool {
+    forall|i: int, j: int| 0 <= i < j < ts.len() ==> ts[i].range.start < ts[j].range.start
+}
+/// `r` is what is left of `ts` after dropping its first k elements
+pub open spec fn suffix_from(ts: Seq<Token>, k: int, r: Seq<Token>) -> bool { 0 <= k <= ts.len() && r =~= ts.subrange(k, ts.len() as int) }
+//~assume `v.into_iter().skip_while(p).collect()` drops the longest prefix whose elements satisfy p and keeps the rest in order (std iterator semantics; R8)
+#[verifier::external_body]
+pub fn skip_while_collect<F: Fn(&Token) -> bool>(items: Vec<Token>, f: F, Ghost(g): Ghost<spec_fn(Token) -> bool>) -> (r: Vec<Token>)
+    requires
+        forall|i: int| 0 <= i < items@.len() ==> call_requires(f, (&#[trigger] items@[i],)),
+        forall|i: int, out: bool| 0 <= i < items@.len() && #[trigger] call_ensures(f, (&items@[i],), out) ==> out == g(items@[i]),
+    ensures
+        suffix_from(items@, items@.len() - r@.len(), r@),
+        forall|i: int| 0 <= i < items@.len() - r@.len() ==> g(#[trigger] items@[i]),
+        r@.len() > 0 ==> !g(r@[0]),
+{ items.into_iter().skip_while(f).collect() }
+#[verifier::external_body]
+pub fn concat4(a: Vec<Token>, b: Vec<Token>, c: Vec<Token>, d: Token) -> (r: Vec<Token>)
+    ensures r@ == a@ + b@ + c@ + seq![d],
+{ let mut r = a; r.extend(b); r.extend(c); r.push(d); r } // `[a, b, c, vec![d]].concat()` needs `Token: Clone`, and the derives are dropped in this unit (R3)
+
+/// The reusable old tokens that are kept behind the re-lexed ones.  A fresh tokenisation never yields overlapping tokens and never leaves
+/// text uncovered (C06), so the kept tail must start at or behind the end of the last re-lexed token, and no reusable token that starts
+/// there may be dropped.
+//@extract spl_frontend/src/lexer.rs :: fn update :: letexpr unaffected_tail
+//@ rewrite skip_while_collect
+//@ lift pub fn unaffected_tail(new_tokens: &Vec<Token>, reusable_tokens: Vec<Token>) -> (r: Vec<Token>)
+//@ sig
+    requires starts_increase(reusable_tokens@),
+    ensures
+        suffix_from(reusable_tokens@, reusable_tokens@.len() - r@.len(), r@), //# unaffected_tail::a_suffix_of_the_reusable_tokens
+        new_tokens@.len() > 0 ==> forall|i: int| 0 <= i < reusable_tokens@.len() - r@.len() ==> (#[trigger] reusable_tokens@[i]).range.start < new_tokens@.last().range.end, //# unaffected_tail::only_overrun_tokens_dropped
+        new_tokens@.len() == 0 ==> r@ =~= reusable_tokens@, //# unaffected_tail::nothing_relexed_nothing_dropped
+        new_tokens@.len() > 0 ==> forall|i: int| 0 <= i < r@.len() ==> (#[trigger] r@[i]).range.start >= new_tokens@.last().range.end, //# unaffected_tail::no_overlap_with_the_last_relexed_token
+//@ closure |token| : &Token
+ -> (b: bool)
+                ensures b == (token.range.start < last_new_token.range.end)
+//@ after_closure |token|
+, Ghost(|t: Token| t.range.start < last_new_token.range.end)
+//@end
+
+/// "a change window that is truthful", producer side: `olds` are the old tokens without the end-of-file token, those behind the edit
+/// already shifted.  If the head is a prefix of them and the tail a suffix, the returned window is truthful for the returned stream.
+//@extract spl_frontend/src/lexer.rs :: fn update :: tailfrom start
+//@ rewrite array_concat4
+//@ lift pub fn finish_update(unaffected_head: Vec<Token>, new_tokens: Vec<Token>, unaffected_tail: Vec<Token>, eof: Token, token_length: usize, Ghost(olds): Ghost<Seq<Token>>) -> (r: (Vec<Token>, TokenChange))
+//@ sig
+    requires
+        olds.len() == token_length, unaffected_head@.len() + unaffected_tail@.len() <= token_length,
+        unaffected_head@ =~= olds.subrange(0, unaffected_head@.len() as int),
+        suffix_from(olds, token_length - unaffected_tail@.len(), unaffected_tail@),
+    ensures
+        r.0@ =~= unaffected_head@ + new_tokens@ + unaffected_tail@ + seq![eof], //# update::stream_is_head_relexed_tail_eof
+        r.1.deletion_range.start == unaffected_head@.len() && r.1.deletion_range.end == token_length - unaffected_tail@.len(), //# update::window_is_what_lies_between_head_and_tail
+        r.1.insertion_len == new_tokens@.len(), //# update::window_counts_the_relexed_tokens
+        truthful(olds + seq![eof], r.0@, &r.1), //# update::window_truthful
+//@end
+
 // ---------- witnesses: every precondition above is satisfiable (vacuity guard)
 pub proof fn witness_wf_change() {
     let tc = TokenChange { deletion_range: 2usize..5usize, insertion_len: 4 };
     assert(wf_change(&tc));
     assert(survives(&tc, 1) && !survives(&tc, 3) && new_pos(&tc, 6) == 7);
 }
+//~not_decided the callers' side of `unaffected_tail` / `finish_update` inside `lexer::update` (that `partition` yields a prefix, that the reusable tokens are the shifted old ones in order, the re-lex loop and its stop condition) stays outside: nom iterator and `Vec::contains` over `Token: PartialEq`
 }
 fn main() {}
